@@ -59,7 +59,7 @@ def gen_cases(tier, rng):
             prog.append([kind, unit])
         raise_at = int(rng.integers(0, depth + 1)) if rng.random() < 0.6 else -1
         catch_at = int(rng.integers(0, max(1, raise_at))) if (raise_at > 0 and rng.random() < 0.5) else -1
-        cases.append({"cls": "context-program", "prog": prog, "raise_at": raise_at, "catch_at": catch_at, "cost": 0.2})
+        cases.append({"cls": "context-program", "prog": prog, "raise_at": raise_at, "catch_at": catch_at, "create": ["inline", "top", "foreign"][len(cases) % 3], "cost": 0.2})
     ctxs = [["1/cm"], ["eV"], ["THz"], ["nm"], ["1/cm", "eV"], ["meV", "1/cm"], ["Ha"], []]
     if tier == "thorough":
         ctxs += [["J"], ["a.u.", "nm"], ["1/cm", "1/cm"], ["eV", "int"]]
@@ -303,7 +303,7 @@ def run_case(case, ctx):
             kind, unit = prog[level]
             inner = (unit, expected[1]) if kind != "length" else (expected[0], unit)
             try:
-                with mk(kind, unit):
+                with (objs[level] if objs is not None else mk(kind, unit)):
                     ctx.require("context-sets-units", cur() == inner, {"level": level, "want": inner, "got": cur(), "prog": prog})
                     ctx.require("context-sets-units", m._in_energy_units_context or kind == "length" or True, {})
                     descend(level + 1, inner)
@@ -314,13 +314,26 @@ def run_case(case, ctx):
                 if level != case["catch_at"]:
                     raise
             ctx.require("context-restores-units", same(cur(), expected), {"level": level, "after": "exit", "want": expected, "got": cur(), "prog": prog})
-        try:
-            descend(0, base)
-        except Boom:
-            pass
+        # context objects may be created ahead of their use (as the package's own examples do: e_units = qr.energy_units("1/cm")),
+        # at top level or while other units are active, and be entered more than once
+        create = case.get("create", "inline")
+        objs = None
+        if create == "top":
+            objs = [mk(k, u) for (k, u) in prog]
+        elif create == "foreign":
+            with qr.energy_units("THz"):
+                with qr.length_units("nm"):
+                    objs = [mk(k, u) for (k, u) in prog]
+            ctx.require("context-restores-units", same(cur(), base), {"after": "creating context objects inside another context", "got": cur()})
+        for rnd in range(2 if (objs is not None and case["raise_at"] < 0) else 1):
+            try:
+                descend(0, base)
+            except Boom:
+                pass
+        ctx.event("context_programs_" + create)
         ctx.require("context-restores-units", same(cur(), base) and m._in_eu_count == 0 and not m._in_energy_units_context,
                     {"after": "whole program", "got": cur(), "eu_count": m._in_eu_count, "flag": m._in_energy_units_context, "prog": prog})
-        ctx.key(("prog", tuple(map(tuple, prog)), case["raise_at"], case["catch_at"]))
+        ctx.key(("prog", tuple(map(tuple, prog)), case["raise_at"], case["catch_at"], create))
         ctx.nontrivial(len(prog) >= 2)
         return
 
